@@ -1,3 +1,4 @@
 SPECIFICATION Spec
+CONSTANT CLOSES = TRUE
 POSTCONDITION Accepted
 CHECK_DEADLOCK FALSE
